@@ -211,17 +211,23 @@ def run(ctx):
 
     # ---- R07.5 descriptor ownership ---------------------------------------------
     DISOWN = ("into_raw_fd", "forget", "leak", "into_raw")
-    allowed_forget = 0
+
+    def disowns(nm):
+        last = nm.split("::")[-1]
+        return last in DISOWN or ("ManuallyDrop" in nm and last == "new")
+    seen_sites = 0
     for p, fn in sorted(prog.fns.items()):
         for bb, t in fn.calls():
             nm = M.callee_str(t["f"])
-            last = nm.split("::")[-1]
-            if last in DISOWN or "ManuallyDrop" in nm and last == "new":
-                if last == "forget" and p == "posix::make_standard_stream":
-                    allowed_forget += 1
-                    continue
-                ctx.ob("R07.5", "disown:%s@%s" % (last, p), False, fn.loc(bb), "%s can disown a descriptor (leak on early return)" % nm)
-    ctx.ob("R07.5", "control:forget-matcher", allowed_forget == 1, "", "positive control: the one legitimate mem::forget (make_standard_stream) must be seen by the matcher (seen %d)" % allowed_forget)
+            if disowns(nm):
+                seen_sites += 1
+                if nm.split("::")[-1] == "forget" and p == "posix::make_standard_stream":
+                    continue  # the borrowed standard descriptors (C05/R05.4): must never be closed
+                ctx.ob("R07.5", "disown:%s@%s" % (nm.split("::")[-1], p), False, fn.loc(bb), "%s can disown a descriptor (leak on early return)" % nm)
+    # positive control of the matcher itself (the expected number of matching sites in the crate is zero or one)
+    ctl = all(disowns(n) for n in ("std::mem::forget", "std::os::fd::IntoRawFd::into_raw_fd", "std::boxed::Box::<T>::leak", "std::mem::ManuallyDrop::<T>::new", "std::rc::Rc::<T>::into_raw")) \
+        and not any(disowns(n) for n in ("std::mem::drop", "std::mem::take", "std::option::Option::<T>::take"))
+    ctx.ob("R07.5", "control:disown-matcher", ctl, "", "positive control: the matcher recognises forget / into_raw_fd / leak / ManuallyDrop::new / into_raw and nothing else (sites seen in the crate: %d)" % seen_sites)
     for fn, bb, t in extern_calls(prog, ["close", "dup", "dup3", "open", "openat", "socket", "socketpair", "creat", "fdopen"]):
         ctx.ob("R07.5", "raw-fd:%s@%s" % (M.callee_str(t["f"]), fn.path), False, fn.loc(bb), "raw descriptor call %s outside an owning wrapper" % M.callee_str(t["f"]))
     pf = prog.one("posix::pipe")
